@@ -408,6 +408,26 @@ func directedPeg() []hist {
 		h.add("tx lock 3 1 %s 10 rowan %s", f1, gasCost)
 		hs = append(hs, h)
 	}
+	// fees of extreme sign and size on the branch "burn ceth itself, no fee receiver, the module holds fees of earlier
+	// exports": nobody can take the module's fees out by stating a negative fee; an account holding nothing burns nothing
+	{
+		var h hist
+		stdSetup(&h, []int64{50, 50}, nil, "0,1")
+		h.add(claimLine(0, 1, 1, snd0, 4, "30000000000000000000", "eth", tok0, 2))
+		h.add(claimLine(1, 1, 1, snd0, 4, "30000000000000000000", "eth", tok0, 2)) // ceth pegged, account 4 holds 30
+		h.add("tx burn 4 1 %s 1000000000000000000 ceth 6000000000000000000", low) // fees accumulate in the module
+		h.add("tx burn 4 1 %s 1000000000000000000 ceth 6000000000000000000", low)
+		for _, fee := range []string{"-10000000000000000000", "-9223372036854775809", "-9223372036854775808", "-1", "-10", "0",
+			"9223372036854775808", "18446744073709551616", "57896044618658097711785492504343953926634992332820282019728792003956564819968"} {
+			h.add("tx burn 5 1 %s 10 ceth %s", low, fee)                   // account 5 holds nothing
+			h.add("tx burn 4 1 %s 10000000000000000000 ceth %s", low, fee) // account 4 holds some
+			h.add("tx lock 3 1 %s 10 rowan %s", low, fee)
+		}
+		h.add("tx recv 3 6")
+		h.add("tx burn 5 1 %s 10 ceth -10000000000000000000", low)
+		h.add("tx burn 4 1 %s 10 ceth -10000000000000000000", low)
+		hs = append(hs, h)
+	}
 	// paused bridge; the un-pause travels in a transaction whose second message fails: discarded as a whole, the bridge
 	// stays paused for the exports of the same block and of the next
 	for _, second := range []string{"wl 3 delete 0", "pause 4 1", "wl 3 add 0"} {
@@ -930,7 +950,34 @@ func symToken(sym string) string {
 	return tok1
 }
 
+// feeExtreme draws a fee of extreme sign / size: negative (small, around the int64 range, minus the amount), and huge
+func feeExtreme(rng *Rng, amount string) string {
+	return []string{"-1", "-9223372036854775808", "-9223372036854775809", "-10000000000000000000", "-" + amount, "-23580000000000000",
+		"9223372036854775807", "9223372036854775808", "18446744073709551616",
+		"57896044618658097711785492504343953926634992332820282019728792003956564819968"}[rng.Intn(10)]
+}
+
 func randomPegOp(rng *Rng, h *hist, held []holding) {
+	if len(held) > 0 && rng.Chance(1, 20) {
+		// the fee token itself, or another held token, burned / locked with a fee of extreme sign or size; the module
+		// usually holds fees of earlier exports at this point (no fee receiver unless a recv message set one)
+		x := held[rng.Intn(len(held))]
+		amt := fmt.Sprint(1 + rng.Intn(1000))
+		sender := x.acct
+		if rng.Chance(1, 3) {
+			sender = 3 + rng.Intn(bNAccts-3) // possibly an account that holds nothing
+		}
+		sym := x.denom
+		if rng.Bool() {
+			sym = "ceth"
+		}
+		kind := "burn"
+		if rng.Chance(1, 4) {
+			kind = "lock"
+		}
+		h.add("tx %s %d 1 %s %s %s %s", kind, sender, ethSpelling(rng, ethBases[rng.Intn(len(ethBases))]), amt, sym, feeExtreme(rng, amt))
+		return
+	}
 	if rng.Chance(1, 14) {
 		// a pause change inside a transaction of two messages (written only if both succeed), then exports at the same
 		// height, the next block, exports again
@@ -985,7 +1032,9 @@ func randomPegOp(rng *Rng, h *hist, held []holding) {
 			amount = rng.Amount(120).String()
 		}
 		ceth := gasCost
-		switch rng.Intn(14) {
+		switch rng.Intn(16) {
+		case 3, 4:
+			ceth = feeExtreme(rng, amount)
 		case 0:
 			ceth = "23579999999999999"
 		case 1:
